@@ -444,16 +444,22 @@ def register_numpy():
             return (x.item(), x.dtype)
         if x.dtype.hasobject:
             try:
+                # Hash the element lengths along with the joined elements;
+                # joining alone maps ['a-b', 'c'] and ['a', 'b-c'] to the same data
                 try:
                     # string fast-path
+                    joined = "-".join(x.flat)
+                    lengths = ",".join([str(len(s)) for s in x.flat])
                     data = hash_buffer_hex(
-                        "-".join(x.flat).encode(
+                        f"{lengths}|{joined}".encode(
                             encoding="utf-8", errors="surrogatepass"
                         )
                     )
                 except UnicodeDecodeError:
                     # bytes fast-path
-                    data = hash_buffer_hex(b"-".join(x.flat))
+                    joined = b"-".join(x.flat)
+                    lengths = ",".join([str(len(s)) for s in x.flat]).encode()
+                    data = hash_buffer_hex(lengths + b"|" + joined)
             except (TypeError, UnicodeDecodeError):
                 return normalize_object(x)
         else:
